@@ -61,6 +61,16 @@ def udpsrv_lines(rng, reps):
                 else:
                     ops.append("tick")
             out.append(" | ".join(ops))
+    # multicast x wildcard listener with several local addresses x de-duplication: two (three) copies of one multicast NON
+    # request with unicast traffic of other peers - through the loopback address and through the address of the multicast
+    # interface - before and between them
+    for beh in ("pb", "pbe"):
+        for pattern in ("l m i m", "i m l m", "m i m l m", "l m m i m", "m l i m", "i l m i m l m"):
+            mid = rng.randrange(0, 60000)
+            ops = ["own 0 udpsrv"]
+            for p in pattern.split():
+                ops.append({"l": "other lo", "i": "other if", "m": "mrecv non %d 11 %s" % (mid, beh)}[p])
+            out.append(" | ".join(ops))
     return out * reps
 
 
@@ -287,6 +297,9 @@ def explore(ctx, art):
     nviol = 0
     for i, (l, o) in enumerate(zip(lines, impl)):
         ctx.cov["evaluations"] += 1
+        if o.startswith("no-multicast-interface"):
+            ctx.count("skipped: no multicast capable interface")
+            continue
         if o.startswith("panic") or "bad-op" in o or "process-error" in o:
             ctx.violations.append(common.Violation("no-crash", "C05:crash:" + l, "%s -> %s" % (l, o), {"input": [l], "observed": o}))
             continue
